@@ -3,7 +3,7 @@ import QipVerif.Model.Sim
 /-! Driver for the simulator / world model (C02, C16), exact backend.
 
 Request (one line):
-`hist cfg=<copy><ccv><reset><getter> mode=sv|dm n=<qubits> ncb=<cbits> ops=<op;op;…> lists=<l;l;…|N>
+`hist cfg=<copy><ccv><reset><getter><dmrefuse><copyrev><copychain><noiselocal> mode=sv|dm n=<qubits> ncb=<cbits> ops=<op;op;…> lists=<l;l;…|N>
       rng=<i,i,…|N> inits=<state/state/…> phases=<p,p,…|N> calls=<call/call/…>`
 
 * op: `g.<code>.<q,q>.<cc|N|e>.<ccv>` or `m.<target>.<store|N>`; `N` = None, `e` = empty list
@@ -72,7 +72,7 @@ def parseCall (s : String) : Option DCall :=
   | _ => none
 
 def errName : Err → String
-  | .index => "index" | .type => "type" | .value => "value" | .attr => "attr"
+  | .index => "index" | .type => "type" | .value => "value" | .attr => "attr" | .notimpl => "notimpl"
 
 def showList (l : List Int) : String := if l.isEmpty then "e" else showInts l
 def showState : Option Exact.QS → String
@@ -101,7 +101,8 @@ def showWorld (w : W) : String :=
     | none => "N"
     | some s => s!"{showRef s.cbits}|{showState s.f.st}|{showProb s.f.prob}|{s.f.opIndex}|" ++
         (match s.f.mres with | none => "N" | some l => showList l) ++ s!"|{s.f.mind}|" ++
-        (match s.f.form with | .qobj => "q" | .tensor => "t" | .matrix => "m" | .garbage => "g")
+        (match s.f.form with | .qobj => "q" | .tensor => "t" | .matrix => "m" | .garbage => "g") ++
+        "|" ++ showList s.f.mixed
   "W!heap=" ++ ";".intercalate (w.heap.cells.map showList) ++ "!sim=" ++ sim ++
     "!comp=" ++ showArgs w.comp.args ++ s!"/{w.comp.phase}" ++
     "!proc=" ++ (match w.proc.pulses with | none => "N" | some t => showTok t) ++ s!"/{w.proc.phase}"
@@ -141,7 +142,9 @@ def parseLists (s : String) : Option (List (List Int)) :=
 def hist (fs : List String) : Option String := do
   let cfgs ← fStr? fs "cfg"
   let cfg : Cfg ← match cfgs.toList with
-    | [a, b, c, d] => some { copyCbits := a == '1', checkCcv := b == '1', resetPhase := c == '1', pureGetter := d == '1' }
+    | [a, b, c, d, e, f, g, h] =>
+      some { copyCbits := a == '1', checkCcv := b == '1', resetPhase := c == '1', pureGetter := d == '1',
+             dmRefuse := e == '1', copyRev := f == '1', copyChain := g == '1', noiseLocal := h == '1' }
     | _ => none
   let mode ← match fStr? fs "mode" with
     | some "sv" => some Mode.sv | some "dm" => some Mode.dm | _ => none
